@@ -307,7 +307,8 @@ Lemma renter_success fixed k re r t m2 m4 :
   ∃ sel w hi f c,
     fund (r_wallet r) (ct_rfund t) true = Some (sel, w) ∧
     re_txset_ok re = true ∧ re_dial_ok re = true ∧ re_write1_ok re = true ∧ re_write3_ok re = true ∧
-    m2 = Some hi ∧ m4 = Some f ∧ (psum (hi_inputs hi) <? ct_hfund t) = false ∧
+    m2 = Some hi ∧ m4 = Some f ∧ (max_currency <? psum (hi_inputs hi)) = false ∧
+    (psum (hi_inputs hi) <? ct_hfund t) = false ∧
     ro_renter (renter_run fixed k re r t m2 m4) = mk_renter (r_key r) w (c :: r_contracts r) ∧
     ro_funded (renter_run fixed k re r t m2 m4) = sel ∧
     co_hsig (at_contract (f_txn f)) = Sig (ct_hk t) (MContract t) ∧
@@ -340,11 +341,12 @@ Proof. intros Hf H1 H2 H3. unfold renter_run, r_fail. rewrite Hf, H1, H2, H3. de
 Lemma renter_sent1 fixed k re r t sel w hi :
   fund (r_wallet r) (ct_rfund t) true = Some (sel, w) →
   re_txset_ok re = true → re_dial_ok re = true → re_write1_ok re = true → re_write3_ok re = true →
+  (max_currency <? psum (hi_inputs hi)) = false →
   (psum (hi_inputs hi) <? ct_hfund t) = false →
   sent_sigs (ro_sent (renter_run fixed k re r t (Some hi) None)) =
     Some (mk_rsigs (Sig (r_key r) (MContract t)) (Sig (r_key r) (MRenewal t)) (length sel)).
 Proof.
-  intros Hf H1 H2 H3 H4 H5. unfold renter_run, r_fail. rewrite Hf, H1, H2, H3, H4, H5.
+  intros Hf H1 H2 H3 H4 H0 H5. unfold renter_run, r_fail. rewrite Hf, H1, H2, H3, H4, H0, H5.
   destruct k; reflexivity.
 Qed.
 
@@ -358,7 +360,7 @@ Lemma renter_success_locks fixed k re r t m2 m4 :
   (0 < ct_rfund t → ct_rfund t ≤ usum sel).
 Proof.
   intros H. destruct (renter_success _ _ _ _ _ _ _ H)
-    as (sel & w & hi & f & c & Hf & _ & _ & _ & _ & _ & _ & _ & Hr & Hs & _).
+    as (sel & w & hi & f & c & Hf & _ & _ & _ & _ & _ & _ & _ & _ & Hr & Hs & _).
   cbn zeta. rewrite Hr, Hs. simpl. apply fund_spec in Hf as (? & ? & ? & ? & ?). done.
 Qed.
 
@@ -389,7 +391,7 @@ Proof.
       discriminate Hm2. }
   cbn [ao_renter ao_host]. intros Hok.
   destruct (renter_success _ _ _ _ _ _ _ Hok)
-    as (sel' & w' & hi & f & c & Hf' & H1 & H2 & H3 & H4 & Hm2 & Hm4 & Hsum & Hr & _ & Hhs & Hc).
+    as (sel' & w' & hi & f & c & Hf' & H1 & H2 & H3 & H4 & Hm2 & Hm4 & Hovf & Hsum & Hr & _ & Hhs & Hc).
   rewrite Hf in Hf'. injection Hf' as <- <-.
   apply via_some in Hm4 as [_ Hfin].
   pose proof (host_final_sent_ok _ _ _ _ _ _ _ Hfin) as Hhok.
@@ -399,7 +401,7 @@ Proof.
   rewrite Hsf in Hfin. injection Hfin as <-.
   apply via_some in Hm1 as [_ Hm1]. apply via_some in Hm3 as [_ Hm3].
   rewrite (renter_sent0 _ _ _ _ _ _ _ Hf H1 H2 H3) in Hm1. injection Hm1 as <-.
-  rewrite Hm2 in Hm3. rewrite (renter_sent1 _ _ _ _ _ _ _ _ Hf H1 H2 H3 H4 Hsum) in Hm3. injection Hm3 as <-.
+  rewrite Hm2 in Hm3. rewrite (renter_sent1 _ _ _ _ _ _ _ _ Hf H1 H2 H3 H4 Hovf Hsum) in Hm3. injection Hm3 as <-.
   (* the renter's signature binds the terms the host used *)
   simpl in Hhs, Hc, Hrs, Hct.
   pose proof Hds as Hds0. destruct Hds as (Hrsig & Hhsig & Hren).
